@@ -28,15 +28,15 @@ def fill(claim, not_yet):
           ENGINE_NOTE + " A process kill = a prefix of the handler's commits is durable and all Python objects are dropped (SQLite atomic commit trusted).",
           "DESIGN.md §9 C01")
     claim("C02", "Lean 4 theorems on the engine model + schedule differential (reorder / redeliver) with re-execution monitor",
-          "Proved: RunTask executes only a RUNNING task; a processed message is never dispatched again (C09); status guards make stale StartTask/CompleteTask/CompleteStage inert. Redelivery of a polling/transient RunTask re-executing a finished task (F12) was found by the monitor and fixed. Outcome determinism over whole runs is validated, not proved.",
+          "Proved along EVERY run of a jump-free workflow (any order, redeliveries, kills at any commit, sweeps, nested deliveries): a task whose result has been recorded keeps its status and is never executed again (recorded_task_never_reexecuted). Per step: RunTask executes only a RUNNING task; a processed message is never dispatched again (C09); status guards make stale StartTask/CompleteTask/CompleteStage inert. Redelivery of a polling/transient RunTask re-executing a finished task (F12) was found by the monitor and fixed. Outcome determinism over whole runs is validated, not proved.",
           ENGINE_NOTE, "DESIGN.md §9 C02")
     claim("C03", "Lean 4 proof: evaluate_readiness READY iff join condition (all inputs); engine claims monitored on every schedule",
           "For the executable model of evaluate_readiness, proved for all inputs: READY exactly when the join condition of the join type holds (or bypass / no upstreams); an AND join with a halted upstream is SKIP unless bypassed; a fired discriminator / N-of-M never fires again. Exhaustive agreement with the real function for <= 3 upstreams; engine-level monitor checks every NOT_STARTED->RUNNING audit row against an independent join oracle on every explored schedule.",
           "Pure half proved about the Lean model tied by exhaustive differential; engine half (claims only in READY states) is monitored on traces and follows in the model from hStartStage being the only NOT_STARTED->RUNNING writer; read-to-claim window covered by C04.",
           "DESIGN.md §9 C03")
-    claim("C05", "Lean 4 theorems on _determine_final_status in the engine model + quiescence monitor on all schedules",
-          "Proved: a workflow with a TERMINAL stage is reported TERMINAL; no stage of a workflow reported final is left RUNNING un-cancelled; with fix F37 no handler claims a stage once the workflow is final. Quiescent-state classification (final / explicitly waiting / wedged, incl. 'stuck until the wait budget') is monitored on every explored schedule; the wedges found are known findings F4, F28, F29 (jump loops) and the exotic class F5/F25.",
-          ENGINE_NOTE + " The driver invariant (G2) is not proved yet: quiescence is established by exploration, final-status facts by proof.",
+    claim("C05", "Lean 4 proof of the driver invariant (queue drained => workflow final) for the plain workload class over every delivery schedule + theorems on _determine_final_status + quiescence monitor on all generated schedules, crash/recovery included",
+          "Proved: the driver invariant for the plain workload class - for every AND-join DAG workflow with plain task results and EVERY delivery schedule, a drained queue means a final workflow status and every RUNNING stage has exactly one matching message queued (quiescent_is_final, running_stage_has_its_message; inductive invariant Live, one preservation lemma per message kind). Also: a workflow with a TERMINAL stage is reported TERMINAL; no stage of a workflow reported final is left RUNNING un-cancelled; with fix F37 no handler claims a stage once the workflow is final. Quiescent-state classification (final / explicitly waiting / wedged, incl. 'stuck until the wait budget') is monitored on every explored schedule; the wedges found are known findings F4, F28, F29 (jump loops) and the exotic class F5/F25.",
+          ENGINE_NOTE + " The driver invariant is proved for the plain class only (other joins, OR-splits, suspends, redeliveries / crashes / sweeps are explored by the monitors; false with jumps: known findings F4 / F28).",
           "DESIGN.md §9 C05")
     claim("C06", "Lean 4 proof over translated transition table + run-level invariant: every audit row legal on every schedule/crash/sweep (jump-free)",
           "Table facts are theorems about a table regenerated from models/status.py on every run. Engine: every handler except JumpToStage writes only legal transitions in ANY state (handler_writes_legal), hence along every run - any delivery order, redelivery, kill after any commit, sweep, cancel, signal - every durable status change is legal and completed statuses are final for workflows without jumps (every_write_legal_partial, complete_is_final_partial). Jump writes: guarded after fix F34; the skip of bypassed stages is not proved. Trigger audit of every explored trace is checked against the source table.",
